@@ -503,6 +503,10 @@ func (e *Env) ghostField(xv Val, name string) (Val, error) {
 	if p, ok := owner.Underlying().(*types.Pointer); ok {
 		owner = p.Elem()
 	}
+	if classify(owner) == KIface && len(xv.S) == 2 {
+		// ghost state of an interface value is keyed by the identity of the object it holds
+		xv = Val{T: xv.T, S: []Term{xv.S[1]}}
+	}
 	var gf *GhostField
 	for i := range e.x.cs.Ghosts {
 		g := &e.x.cs.Ghosts[i]
@@ -552,9 +556,14 @@ func (e *Env) index(t EIndex) (Val, error) {
 		idx := e.asIndex(iv)
 		ls := u.Layout(tt.Elem())
 		v := Val{T: tt.Elem(), S: make([]Term, len(ls))}
+		pos := u.IAdd(xv.S[1], idx)
+		if pre := "(- "; strings.HasPrefix(idx.S, pre) && strings.HasSuffix(idx.S, " "+xv.S[1].S+")") {
+			// idx is (j - off): the absolute position is j
+			pos = Term{idx.S[len(pre) : len(idx.S)-len(xv.S[1].S)-2], idx.So}
+		}
 		for i, sl := range ls {
 			arr := Select(u.comp(e.st, elemComp(tt.Elem(), sl.Suffix), ArrSort(SInt, ArrSort(u.IntSort(), sl.So))), xv.S[0])
-			v.S[i] = Select(arr, u.IAdd(xv.S[1], idx))
+			v.S[i] = Select(arr, pos)
 		}
 		return v, nil
 	case *types.Map:
@@ -906,7 +915,17 @@ func (e *Env) quant(t EQuant) (Val, error) {
 			}
 		}
 		decls = append(decls, fmt.Sprintf("(%s %s)", name, so))
-		n.names[b.Name] = Val{T: ty, S: []Term{{name, so}}}
+		bv := Val{T: ty, S: []Term{{name, so}}}
+		// index shift: if the body reads s[i] for a slice s that does not depend on the bound variables, quantify over
+		// the absolute position j = off(s) + i, so that the element term (select A j) is a usable trigger.
+		if (b.Type == "int" || b.Type == "Int") && u.Mode == ModeInt {
+			if base := findIndexedBy(t.Body, b.Name, boundNames(t)); base != nil {
+				if sv, err := e.Eval(base); err == nil && sv.T != nil && classify(sv.T) == KSlice && sv.S[1].S != "0" {
+					bv = Val{T: ty, S: []Term{App("-", SInt, Term{name, so}, sv.S[1])}}
+				}
+			}
+		}
+		n.names[b.Name] = bv
 	}
 	body, err := n.Bool(t.Body)
 	if err != nil {
@@ -920,6 +939,77 @@ func (e *Env) quant(t EQuant) (Val, error) {
 		body = And(append(ranges, body)...)
 	}
 	return scalar(types.Typ[types.Bool], Term{fmt.Sprintf("(%s (%s) %s)", q, strings.Join(decls, " "), body.S), SBool}), nil
+}
+
+func boundNames(t EQuant) map[string]bool {
+	m := map[string]bool{}
+	for _, b := range t.Vars {
+		m[b.Name] = true
+	}
+	return m
+}
+
+// findIndexedBy returns the base expression of the first x[v] in e whose base does not mention bound variables.
+func findIndexedBy(e Expr, v string, bound map[string]bool) Expr {
+	var found Expr
+	var mentions func(e Expr) bool
+	mentions = func(e Expr) bool {
+		m := false
+		walkExpr(e, func(x Expr) {
+			if id, ok := x.(EIdent); ok && bound[id.Name] {
+				m = true
+			}
+		})
+		return m
+	}
+	walkExpr(e, func(x Expr) {
+		if found != nil {
+			return
+		}
+		if ix, ok := x.(EIndex); ok {
+			if id, ok := ix.I.(EIdent); ok && id.Name == v && !mentions(ix.X) {
+				found = ix.X
+			}
+		}
+	})
+	return found
+}
+
+func walkExpr(e Expr, f func(Expr)) {
+	if e == nil {
+		return
+	}
+	f(e)
+	switch t := e.(type) {
+	case EUnary:
+		walkExpr(t.X, f)
+	case EBinary:
+		walkExpr(t.X, f)
+		walkExpr(t.Y, f)
+	case ECond:
+		walkExpr(t.C, f)
+		walkExpr(t.A, f)
+		walkExpr(t.B, f)
+	case ESel:
+		walkExpr(t.X, f)
+	case EIndex:
+		walkExpr(t.X, f)
+		walkExpr(t.I, f)
+	case ECall:
+		for _, a := range t.Args {
+			walkExpr(a, f)
+		}
+	case EOld:
+		walkExpr(t.X, f)
+	case EQuant:
+		walkExpr(t.Body, f)
+	case ETypeIs:
+		walkExpr(t.X, f)
+	case ECast:
+		walkExpr(t.X, f)
+	case EDeref:
+		walkExpr(t.X, f)
+	}
 }
 
 func (e *Env) callExpr(t ECall) (Val, error) {
@@ -985,6 +1075,8 @@ func (e *Env) callExpr(t ECall) (Val, error) {
 			rt = b.T
 		}
 		return scalar(rt, Ite(c, a.One(), b.One())), nil
+	case "now": // the ghost clock: the latest reading of time.Now()
+		return scalar(nil, u.ghost(e.st, "time.now", SInt)), nil
 	case "isfresh": // allocated after the pre-state
 		v, err := e.Eval(t.Args[0])
 		if err != nil {
